@@ -131,6 +131,50 @@ func runC30(c *Ctx) {
 						}
 					}
 				}
+				if !okHdr && badByte == "" {
+					// the envelope test may live in a boolean helper over the same bytes
+					for _, b2 := range fn.Blocks {
+						iff, ok := b2.Instrs[len(b2.Instrs)-1].(*ssa.If)
+						if !ok {
+							continue
+						}
+						call, ok := iff.Cond.(*ssa.Call)
+						if !ok {
+							continue
+						}
+						h := samePkgHelper(fn, &call.Call)
+						if h == nil || len(call.Call.Args) != 1 || !strings.Contains(trace(call.Call.Args[0]), "Cbor(p0)") {
+							continue
+						}
+						okF, _ := factsForValue(fn, call)
+						if v := c.mustPass(fn, []ssa.Instruction{r}, func(f string) bool { return f == okF }); okF == "" || !v[0].OK {
+							continue
+						}
+						all := true
+						for _, in := range fnInstrs(h) {
+							switch x := in.(type) {
+							case *ssa.Return:
+								rv := returnedValue(x, 0)
+								if k, isK := rv.(*ssa.Const); isK && k.Value != nil && k.Value.String() == "false" {
+									continue
+								}
+								bo, isB := rv.(*ssa.BinOp)
+								if !isB || bo.Op != token.EQL || desc(bo.Y) != "4" || trace(bo.X) != "DecodeArrayHeader(NewStreamDecoder(p0)#0)#0" {
+									all = false
+								}
+							case *ssa.BinOp:
+								if tx := trace(x.X); strings.HasSuffix(tx, "[]") && strings.Contains(tx, "p0") {
+									if k, ok := x.Y.(*ssa.Const); ok {
+										badByte = fmt.Sprintf("%s %s %s", shortArg(tx), x.Op, k.Value)
+									}
+								}
+							}
+						}
+						if all && badByte == "" {
+							okHdr = true
+						}
+					}
+				}
 				switch {
 				case okHdr:
 					c.Ok("fee-size-original-length", key+":minus-one-four-elements", r.Pos(), "one byte is subtracted only when the decoded array header of the same bytes has length 4")
